@@ -27,13 +27,16 @@ class _Abort(BaseException):
 
 class Run:
     """One execution of a configuration under a schedule."""
+    STALE = 220
 
     def __init__(self, cfg, trace_socket_py=False, max_steps=6000):
         self.cfg = cfg
         self.n = len(cfg)
         self.hubmod = importlib.import_module("netqasm.sdk.classical_communication.thread_socket.socket_hub")
         self.sockmod = importlib.import_module("netqasm.sdk.classical_communication.thread_socket.socket")
-        self.files = {self.hubmod.__file__}
+        self.bcmod = importlib.import_module("netqasm.sdk.classical_communication.broadcast_channel")
+        self.tbcmod = importlib.import_module("netqasm.sdk.classical_communication.thread_socket.broadcast_channel")
+        self.files = {self.hubmod.__file__, self.bcmod.__file__, self.tbcmod.__file__}
         if trace_socket_py:
             self.files.add(self.sockmod.__file__)
         self.max_steps = max_steps
@@ -48,6 +51,10 @@ class Run:
         self.aborting = False
         self.tls = threading.local()
         self.sleeps = [0] * self.n            # consecutive sleeps without anybody's access in between
+        self.stale = [0] * self.n             # line steps of a thread since shared state last changed / it finished an op
+        self.appended = {}                    # ground truth: payloads appended to each hub queue, in order
+        self.chans = [None] * self.n
+        self.bsocks = [[] for _ in cfg]
         self.line_sched = []                  # the line-level schedule actually executed
         self.failed_acq = [False] * self.n
         self.errors = []
@@ -73,6 +80,7 @@ class Run:
             if any(m in label for m in MUT):      # only a change of shared state restarts the quiescence count
                 for i in range(run.n):
                     run.sleeps[i] = 0
+                    run.stale[i] = 0
 
         class LSet(set):
             def __init__(s, nm):
@@ -104,6 +112,7 @@ class Run:
 
             def append(s, m):
                 rec("q_app", s.key)
+                run.appended.setdefault(tuple(s.key), []).append(m)
                 list.append(s, m)
 
             def pop(s, *a):
@@ -271,6 +280,8 @@ class Run:
 
     def _do(self, tid, op):
         th = self.cfg[tid]
+        if th.get("kind") == "bc":
+            return self._do_bc(tid, th, op)
         k = th["key"]
         if op[0] == "connect":
             s = self.HSock.__new__(self.HSock)
@@ -298,6 +309,36 @@ class Run:
             return "ok"
         raise ValueError(op)
 
+    def _do_bc(self, tid, th, op):
+        """a ThreadBroadcastChannel endpoint: one thread socket per remote node"""
+        run = self
+        if op[0] == "bconnect":
+            HS = self.HSock
+
+            class S(HS):
+                def __init__(s, app_name, remote_app_name, **kw):
+                    run.bsocks[tid].append(s)        # keep alive, also when the constructor is aborted
+                    HS.__init__(s, tid, app_name, remote_app_name, **kw)
+
+            class C(self.tbcmod.ThreadBroadcastChannel):
+                _socket_class = S
+
+            self.bsocks[tid] = []
+            self.chans[tid] = C(th["app"], list(th["remotes"]))
+            return "ok"
+        ch = self.chans[tid]
+        if op[0] == "bsend":
+            ch.send(op[1])
+            return "ok"
+        if op[0] == "brecv":
+            who, msg = ch.recv()
+            return ["bmsg", who, msg]
+        if op[0] == "bclose":
+            for sk in ch._sockets.values():
+                self.hub.disconnect(sk)
+            return "ok"
+        raise ValueError(op)
+
     def _worker(self, tid):
         self.tls.tid = tid
         self.sems[tid].acquire()          # wait for the first resume
@@ -322,6 +363,7 @@ class Run:
                 except KeyError:
                     r = "keyerr"
                 self.results[tid].append((i, r, start, self.stamp, lstart, len(self.log)))
+                self.stale[tid] = 0
             self.status[tid] = "done"
         except _Abort:
             self.status[tid] = "blocked"
@@ -339,6 +381,7 @@ class Run:
 
     def _resume(self, tid):
         self.stamp += 1
+        self.stale[tid] += 1
         self.line_sched.append(tid)
         self.sems[tid].release()
         self.main.acquire()
@@ -354,7 +397,9 @@ class Run:
     def quiescent(self):
         """every unfinished thread has slept twice in a row while nobody touched shared state"""
         r = self.runnable()
-        return bool(r) and all(self.sleeps[t] >= 2 for t in r)
+        # (a busy-waiting loop without sleep, e.g. BroadcastChannel.recv, counts as blocked after
+        # STALE line steps during which nobody changed shared state and it finished no op)
+        return bool(r) and all(self.sleeps[t] >= 2 or self.stale[t] >= self.STALE for t in r)
 
     def execute(self, chooser, mode="line"):
         """chooser(run, runnable) -> tid.  Runs to completion or quiescence."""
@@ -428,7 +473,8 @@ def random_chooser(rng, p_switch=0.3):
 
     def ch(run, runnable):
         c = state["cur"]
-        if c in runnable and rng.random() > p_switch and not run.failed_acq[c] and run.sleeps[c] == 0:
+        if c in runnable and rng.random() > p_switch and not run.failed_acq[c] and run.sleeps[c] == 0 \
+                and (run.stale[c] < 50 or run.stale[c] % 50):
             return c
         c = rng.choice(runnable)
         state["cur"] = c
@@ -473,7 +519,8 @@ def pct_chooser(rng, n, depth=3, est_len=150):
     def ch(run, runnable):
         cnt[0] += 1
         c = last[0]
-        if c is not None and (run.failed_acq[c] or (run.log and run.log[-1][0] == c and run.log[-1][1] == "sleep")):
+        if c is not None and (run.failed_acq[c] or (run.log and run.log[-1][0] == c and run.log[-1][1] == "sleep")
+                              or (run.stale[c] >= 50 and run.stale[c] % 50 == 0)):   # busy-waiting without sleep
             demote(c)
         t = max(runnable, key=lambda x: pr[x])
         if cnt[0] in change:
